@@ -383,12 +383,13 @@ impl ops::Shr<&Object> for &Object {
 impl Hash for Object {
     fn hash<H: Hasher>(&self, state: &mut H) {
         match self {
-            Object::Integer(ref n) => n.hash(state),
+            // Integer(n) == Float(n as f64) and 0.0 == -0.0, so all of them must hash alike:
+            // hash every number by the bits of its f64 value (+ 0.0 turns -0.0 into 0.0)
+            Object::Integer(ref n) => state.write_u64((*n as f64 + 0.0).to_bits()),
             Object::Char(ref ch) => ch.hash(state),
             Object::Byte(ref b) => b.hash(state),
             Object::Float(ref f) => {
-                // Use the built-in hash function for f64
-                state.write_u64(f.to_bits());
+                state.write_u64((*f + 0.0).to_bits());
             }
             Object::Bool(ref b) => b.hash(state),
             Object::Str(ref s) => s.hash(state),
